@@ -13,10 +13,11 @@ CHARS = 'abcdefghijklmnopqrstuvwxyzABCDEFGHIJKLMNOPQRSTUVWXYZ0123456789""!"#$%&\
 BOUNDS = {
     'quick': 'byte tokenizer: fully symbolic texts of <= 3 characters (all UTF-8 widths) and templates that contain or '
              'nearly contain a special-token spelling with symbolic neighbours (<pad>, <pad + 1 symbolic, symbolic + <bos> + '
-             'symbolic, two adjacent special tokens), configs: special sets default / bos_eos / dup_extra, groups bytes / '
+             'symbolic, two adjacent special tokens), configs: special sets default / bos_eos / dup_extra / two_prefix (two distinct prefix and suffix tokens), groups bytes / '
              'code points, pad_to_multiple_of None / 128, graphemes on/off, ignore_special_tokens symbolic; char tokenizer: '
              'texts of <= 3 symbolic characters (graphemes over Sigma_g) and the same templates',
-    'thorough': 'texts of <= 4 symbolic characters, more templates',
+    'thorough': 'additionally texts of 4 symbolic characters, special spellings with symbolic neighbours on both sides, repeated / '
+                'interrupted / nested spellings (<pad><pad>, <pa?d>, <<bos>pad>, <bos>?<eos>), every groups x special combination, pad_to_multiple_of 1',
 }
 OUTSIDE = ['special tokens that are prefixes of one another', 'HuggingFace / dummy tokenizers', 'regex engine internals '
            '(leftmost-first literal alternation modelled, diff-tested)']
@@ -30,20 +31,39 @@ TEMPLATES = {
     'pad': P, 'pad_pre': ['w1'] + P, 'pad_post': P + ['w2'], 'near_pad': P[:4] + ['w1'], 'near_pad2': ['w1'] + P[1:],
     'bos_mid': ['w3'] + B + ['w1'], 'two': B + P, 'lt': [ord('<'), 'w1', ord('>')],
 }
+E = [ord(c) for c in '<eos>']
+QUICK_TEMPLATES = list(TEMPLATES)
+# thorough tier only: four symbolic characters, special spellings with symbolic neighbours on both sides, repeated /
+# interrupted spellings
+TEMPLATES.update({
+    'sym4': ['w1', 'w2', 'w3', 'w1'], 'sym4b': ['w4', 'w1', 'w1', 'w2'], 'sym4c': ['w1', 'w1', 'w1', 'w1'],
+    'pad_both': ['w2'] + P + ['w1'], 'pad_pad': P + P, 'pad_sym_pad': P + ['w1'] + P, 'broken_pad': P[:3] + ['w1'] + P[3:],
+    'bos_sym_eos': B + ['w1'] + E, 'eos_bos': E + B, 'nested': P[:1] + B + P[1:], 'near_bos2': B[:4] + ['w2', 'w1'],
+})
+
+
+def templates(tier):
+    return QUICK_TEMPLATES if tier == 'quick' else list(TEMPLATES)
 
 
 def shapes(tier):
     out = []
-    tnames = list(TEMPLATES)
+    tnames = templates(tier)
     for t in tnames:
         for sp in ('default', 'bos_eos', 'dup_extra'):
             for g in (False, True):
                 for groups in ('Bytes', 'CodePoints'):
-                    if (groups == 'CodePoints') != (sp == 'bos_eos'):
+                    if tier == 'quick' and (groups == 'CodePoints') != (sp == 'bos_eos'):
                         continue
                     out.append({'kind': 'byte', 'template': t, 'special': sp, 'g': g, 'groups': groups,
                                 'pad_to': 128 if (sp == 'dup_extra' and not g) else None})
+                    if tier != 'quick' and sp == 'default' and groups == 'Bytes':
+                        out.append({'kind': 'byte', 'template': t, 'special': sp, 'g': g, 'groups': groups, 'pad_to': 1})
                 out.append({'kind': 'char', 'template': t, 'special': sp, 'g': g})
+    for t in (['empty', 'sym2', 'pad_post'] if tier == 'quick' else tnames):
+        for g in (False, True):
+            out.append({'kind': 'byte', 'template': t, 'special': 'two_prefix', 'g': g, 'groups': 'Bytes', 'pad_to': None})
+            out.append({'kind': 'char', 'template': t, 'special': 'two_prefix', 'g': g})
     out.sort(key=lambda s: -len(TEMPLATES[s['template']]))
     return out
 
